@@ -36,6 +36,7 @@ from bounded.gen_f import DC, DCO, Base, Inner, Sub, brief, cp, func, run  # noq
 
 from jsonargparse import ActionConfigFile, ActionParser, ArgumentParser, Namespace
 
+RANDOM_PER_SHAPE = 500  # thorough tier: seeded random mutants per shape
 FK = "zzq"  # the foreign key (no option of any shape starts with it, it is not an abbreviation of anything)
 
 
@@ -579,7 +580,7 @@ def work(job):
         # ---------------- thorough: seeded random double mutations (foreign key + unrelated valid edits elsewhere)
         if thorough:
             rng = random.Random(seed * 1000 + si)
-            for n in range(150):
+            for n in range(RANDOM_PER_SHAPE):
                 tree = copy.deepcopy(shape.valid)
                 pos = rng.choice(positions)
                 vname, fval = rng.choice(FVALS[:5])
@@ -643,7 +644,7 @@ def main():
         f"{len(SHAPES)} parser shapes; ONE foreign key per configuration at every dict node of the valid tree (depth <= 6) x values "
         f"{[n for n, _ in FVALS]} and names ['{FK}', case-swapped sibling, sibling+'_', 'class_path', 'init_args', '{FK}.k']; ONE required key "
         f"removed or nulled; {len(CHANNELS)} channels; exit_on_error False everywhere, True on "
-        + ("all channels; + 150 seeded random mutants per shape" if h.thorough else "object/argv (foreign int, required)"))))
+        + (f"all channels; + {RANDOM_PER_SHAPE} seeded random mutants per shape" if h.thorough else "object/argv (foreign int, required)"))))
 
 
 if __name__ == "__main__":
